@@ -527,11 +527,23 @@ PARSER_EXT = {'name': 'parser-ext', 'build': 'parser', 'flags': ['--cfg', 'featu
 def collect(vacuity=False, tier='quick'):
     """run every verification unit and merge: function names of different units never collide (prefix filter).
     thorough tier: the core unit is verified a second time in the p256 configuration (MAXDHLEN = 65, DHChoice::P256)"""
-    units = [collect_unit(u, vacuity=vacuity) for u in UNITS]
+    units, failed_units = [], {}
+    for u in UNITS:
+        try:
+            units.append(collect_unit(u, vacuity=vacuity))
+        except (X.AnchorLost, W.AnchorLost, Undecided) as e:
+            # one unit that cannot be built / is rejected as a whole must not take the other units' properties with it;
+            # the core unit serves every property, so its failure is everybody's
+            if u['name'] == 'core':
+                raise
+            failed_units[u['name']] = str(e).split('\n')[0][:300]
     confirm = []
     if tier == 'thorough' and not vacuity:
-        confirm = [collect_unit(P256_CORE, vacuity=False), collect_unit(PARSER_EXT, vacuity=False)]
-    res = {'units': units, 'funcs': {}, 'errors': [], 'cache_hit': all(u['cache_hit'] for u in units),
+        for cu in (P256_CORE, PARSER_EXT):
+            if cu['build'] in failed_units or (cu['build'] == 'parser' and 'parser' in failed_units):
+                continue
+            confirm.append(collect_unit(cu, vacuity=False))
+    res = {'failed_units': failed_units, 'units': units, 'funcs': {}, 'errors': [], 'cache_hit': all(u['cache_hit'] for u in units),
            'wall_s': sum(u['wall_s'] for u in units), 'verified': sum(u['verified'] for u in units), 'nerrors': sum(u['nerrors'] for u in units),
            'ex': units[0]['ex'], 'model': units[0]['model']}
     for u in units:
@@ -549,6 +561,19 @@ def collect(vacuity=False, tier='quick'):
         res['cache_hit'] = res['cache_hit'] and u['cache_hit']
     res['confirm_units'] = [{'unit': u['unit']['name'], 'verified_functions': u['verified'], 'failed_functions': u['nerrors'], 'verus_wall_s': round(u['wall_s'], 1)} for u in confirm]
     return res
+
+
+def unit_props(uname):
+    """property ids a unit's contract files speak about (labels and props lines) - used only when the unit as a whole fails"""
+    sub = {'wrappers': 'wrappers', 'parser': 'parser', 'ring': 'ring'}.get(uname)
+    props = {'C10'}
+    if sub is None:
+        return {'C%02d' % i for i in range(1, 21)}
+    for f in glob.glob(os.path.join(ROOT, 'contracts', sub, '*.vspec')):
+        for l in open(f):
+            if l.startswith('props ') or l.startswith('#: ') or l.startswith('//# props'):
+                props.update(re.findall(r'C\d\d', l))
+    return props
 
 
 def obligations(res):
@@ -678,10 +703,29 @@ def check_property(pid, tier, res=None, vres=None, quiet=False):
     seed = int(os.environ.get('VERIF_SEED', '0') or 0)
     if res is None:
         res = collect(vacuity=False, tier=tier)
+    # a whole unit that could not be built or was rejected: every property its contract files mention (and C10) is undecided
+    for uname, why in res.get('failed_units', {}).items():
+        if pid in unit_props(uname):
+            raise Undecided('verification unit %s could not be decided on this tree (%s) and serves %s' % (uname, why, pid))
     obs = obligations(res)
     mine = {k: v for k, v in obs.items() if pid in v['props']}
     if not mine:
         raise Undecided('no obligation is tagged with %s (vacuity guard)' % pid)
+    # a function that had to be left out of the run (isolated) decides nothing: every property its contract entry, its
+    # trait's contract or its module-level safety claim (C10) serves is undecided
+    for u in res['units']:
+        m = u['model']
+        decl_props = {}
+        for fe in m.info['fn_entries']:
+            if fe.get('decl_of_trait') and not fe['has_body']:
+                decl_props[(fe['decl_of_trait'], fe['name'])] = set(fe['props'])
+        for f in u.get('isolated', []):
+            props_f = set(m.entry_props.get(f, [])) | {'C10'}
+            t = m.fn_trait.get(f)
+            if t:
+                props_f |= decl_props.get((t, f.split('::')[-1]), set())
+            if pid in props_f:
+                raise Undecided('function %s was left out of the run (proof anchor lost or construct outside the verifier\'s reach) and serves %s' % (f, pid))
     # every function carrying one of my obligations must really have been verified by Verus
     missing = sorted({k[0] for k in mine if k[0] not in res['funcs']})
     if missing:
